@@ -453,11 +453,67 @@ REG['Mix28'] = Mix28
         (_b(u.byte()) if ty == 1 else (lambda k: _b(k) + u.bytes(k))(ch.draw("k", 3)) if ty == 2 else u.bytes(2)) for _ in range(n)) + _b(u.byte()))(
             1 + ch.draw("type", 3), ch.draw("n", 3))})
 
+# 29  a user-written field (docs/reference/10_field_in_deep.md) whose Python object is a dict, also behind when()
+def _opts29(ch, u):
+    return b"".join(_b(1 + ch.draw("tag", 9)) + (lambda n: _b(n) + u.bytes(n))(ch.draw("vlen", 3)) for _ in range(ch.draw("nopts", 3))) + b"\x00"
+
+
+decl("userfield", """
+class Opts29(Field):
+    def __init__(self, default=None):
+        Field.__init__(self)
+        self.default = {} if default is None else default
+
+    def unpack(self, pkt, raw, offset=0, **k):
+        d = {}
+        while True:
+            tag = raw[offset]
+            offset += 1
+            if tag == 0:
+                break
+            n = raw[offset]
+            v = raw[offset + 1:offset + 1 + n]
+            if len(v) != n:
+                raise Exception("short option")
+            d[tag] = v
+            offset += 1 + n
+        setattr(pkt, self.field_name, d)
+        return offset
+
+    def pack(self, pkt, fragments, **k):
+        d = getattr(pkt, self.field_name)
+        fragments.append(b"".join(bytes([t, len(v)]) + v for t, v in sorted(d.items())) + b"\\x00")
+        return fragments
+
+class U29(Packet):
+    __bisturi__ = OPT
+    kind = Int(1)
+    opts = Opts29()
+    more = Opts29().when(kind, default={7: b'!'})
+    tail = Int(1)
+REG['U29'] = U29
+""", {"U29": lambda ch, u: (lambda kind: _b(kind) + _opts29(ch, u) + (_opts29(ch, u) if kind else b"") + _b(u.byte()))(ch.draw("kind", 2))})
+
+# 30  defaults given as a tuple of packets (a user may well write a tuple where the docs write a list)
+decl("tupledefault", """
+class Pt30(Packet):
+    __bisturi__ = OPT
+    x = Int(1)
+    y = Int(1)
+
+class Seg30(Packet):
+    __bisturi__ = OPT
+    ends = Ref(Pt30).repeated(2, default=(Pt30(x=1, y=2), Pt30(x=3, y=4)))
+    t = Int(1)
+REG['Pt30'] = Pt30
+REG['Seg30'] = Seg30
+""", {"Seg30": lambda ch, u: u.bytes(5)})
+
 
 BY_NAME = {d["name"]: d for d in POOL}
 
 HEADER = """from bisturi.packet import Packet
-from bisturi.field import Int, Data, Bits, Ref, Em
+from bisturi.field import Int, Data, Bits, Ref, Em, Field
 from bisturi.descriptor import Auto, AutoLength
 import re
 REG = {}
